@@ -8,12 +8,17 @@ PROP = {'gen': ['sixel', 'octree'],
  'props_module': 'Props.C12',
  'corr_check': 'SNT.Corr.C12Corr.c12_check (reference sixel interpreter run on the bytes of SixelImageHandler::draw; encoder model '
                'Image/Sixel.v + Image/SixelDraw.v compared byte for byte under the observed strip order)',
- 'level_text': 'Coq theorems: for every palette, index image and every hash-map iteration order the encoder model output is one '
-               'well-formed sixel sequence that a reference interpreter (written from the DEC description) decodes to a picture of '
-               'the declared size with every pixel painted in its register colour and nothing outside; draw on any image of height '
-               '>= 6 yields <= 256 registers; with <= 256 colours at 0..100 resolution the picture equals the source at that '
-               'resolution; repeated draws return the cached bytes. Scaling tables and constants are regenerated from the source '
-               'each run; the interpreter is run on the implementation bytes in the correspondence check.',
+ 'level_text': 'Coq theorems: (C12_roundtrip) for every palette, index image and every hash-map iteration order the encoder model output is '
+               'one well-formed sixel sequence that a reference interpreter (written from the DEC description) decodes to a picture of the '
+               'declared size with every pixel painted in its register colour and nothing outside; (C12_decode_upto_2p56px) draw on any image '
+               'of height >= 6, width >= 1 and at most 2^56 pixels yields <= 256 registers and such a picture of size w x (h - h mod 6); '
+               '(C12_exact_upto_2p56px) if moreover the image has <= 256 colours at 0..100 resolution AND is not sub-sampled '
+               '(h6 * w / 25600 < 2) the picture equals the source at that resolution; (C12_crop_reads_view) a cropped Image (shared buffer + '
+               'Shape::view, C07 model) reads exactly the window the theorems are applied to; (C12_repeat_while_cached) a repeated draw returns '
+               'the bytes of the first one ONLY while its entry is cached (total output <= IMAGE_CACHE_SIZE): after an eviction it is false '
+               '(C12_repeat_refuted_after_eviction) and only a correct picture is guaranteed. Scaling tables and constants are regenerated '
+               'from the source each run; the interpreter is run on the implementation bytes in the correspondence check, with the same '
+               'predicates (C12_checked_predicates, lemma).',
  'level_note': 'Trusted: Coq kernel + vm_compute; translate/sixel_tables.py (scaling tables and constants re-extracted from the source each '
                'run; scale(pre(x)) validated against the real code for all 256 values); hand-written models validated by the correspondence run; '
                'rasterize blend_over and the 64-bit content hash are oracles. No axioms.',
